@@ -4,7 +4,9 @@
  *   colperm: 0 NATURAL 1 MMD_ATA 2 MMD_AT_PLUS_A 3 COLAMD 4 MY_PERMC(permidx)
  *   umode  : 0 u=1.0  1 u symbolic in (0,1]  2 u=0.5  3 u=0.0 (documented as legal "diagonal pivoting")
  *   flags  : bit0 assume strict column diagonal dominance; bit1 pattern is structurally singular (info=0 forbidden)
- *   symcols: bitmask of symbolic columns (default all); other columns hold fixed generic concrete values */
+ *   symcols: bitmask of symbolic columns (default all); other columns hold fixed generic concrete values
+ *   lwork  : 0 library allocation; > 0 caller workspace of exactly lwork bytes inside a guarded arena (C08); woff: 0 / 4 byte misalignment
+ *   failat : k > 0: the k-th allocation request made during ?gstrf fails (C08 library-allocation half) */
 #include "hcommon.h"
 
 int main(int argc, char **argv) {
@@ -13,7 +15,8 @@ int main(int argc, char **argv) {
   h_set_tuning((int)h_arg(argc, argv, 6, 1), (int)h_arg(argc, argv, 7, 1), (int)h_arg(argc, argv, 8, 1), (int)h_arg(argc, argv, 9, 1), (int)h_arg(argc, argv, 10, 1), (int)h_arg(argc, argv, 11, 20));
   int umode = (int)h_arg(argc, argv, 12, 0), flags = (int)h_arg(argc, argv, 13, 0);
 
-  unsigned symcols = (unsigned)h_arg(argc, argv, 14, -1);
+  unsigned symcols = (unsigned)h_arg(argc, argv, 14, -1); long lwork = h_arg(argc, argv, 15, 0), woff = h_arg(argc, argv, 16, 0), failat = h_arg(argc, argv, 17, 0);
+  void *work = lwork > 0 ? slusym_workspace(lwork, woff) : NULL;
   symmat_t S; symmat_build_cols(&S, m, n, pat, "a", symcols);
   if (flags & 1) symmat_assume_coldom(&S);
   real_t u = 1;
@@ -32,9 +35,13 @@ int main(int argc, char **argv) {
   sp_preorder(&opt, &A, perm_c, etree, &AC);
   slusym_assert_true(h_is_perm(perm_c, n), "C10.perm_c.bijection.postordered");
   int_t info = -12345;
-  F(gstrf)(&opt, &AC, sp_ienv(2), sp_ienv(1), etree, NULL, 0, perm_c, perm_r, &L, &U, &Glu, &stat, &info);
+  if (failat > 0) slusym_fail_malloc_at(failat);
+  F(gstrf)(&opt, &AC, sp_ienv(2), sp_ienv(1), etree, work, (int_t)lwork, perm_c, perm_r, &L, &U, &Glu, &stat, &info);
+  slusym_fail_malloc_at(0);
   slusym_note("info", (long)info); slusym_note("expansions", (long)stat.expansions);
-  slusym_assert_true(info >= 0 && info <= n, "C04.info.range");
+  if (lwork > 0) slusym_workspace_check("C08.workspace.nothing-written-outside");
+  if (lwork > 0 || failat > 0) { slusym_assert_true(info >= 0, "C08.info.nonnegative"); if (info > n) slusym_note("shortage", 1); }
+  else slusym_assert_true(info >= 0 && info <= n, "C04.info.range");
 
   /* the caller's matrix is input-only for the factor routine */
   { int same = 1; int_t k = 0; for (int j = 0; j < n; j++) for (int i = 0; i < m; i++) if (S.D.nz[i][j]) { if (!e_same(S.val[k], S.D.a[i][j]) || S.rowind[k] != i) same = 0; k++; } slusym_assert_true(same && S.colptr[n] == S.nnz, "C02.A.unchanged"); }
@@ -88,8 +95,8 @@ int main(int argc, char **argv) {
   }
   /* lifecycle: everything the factor routine allocated is owned by L, U (and AC); after the caller destroys them nothing remains */
   Destroy_CompCol_Permuted(&AC);
-  if (info >= 0 && info <= n) { Destroy_SuperNode_Matrix(&L); Destroy_CompCol_Matrix(&U); }
-  slusym_heap_assert_clean(mark, "C19.factor.no-leak");
+  if (info >= 0 && info <= n) { if (lwork > 0) { Destroy_SuperMatrix_Store(&L); Destroy_SuperMatrix_Store(&U); } else { Destroy_SuperNode_Matrix(&L); Destroy_CompCol_Matrix(&U); } }
+  slusym_heap_assert_clean(mark, info > n ? "C19.factor.no-leak.after-shortage" : "C19.factor.no-leak");
   StatFree(&stat);
   slusym_done();
   return 0;
